@@ -382,7 +382,7 @@ pub fn probe_image(image: &str, scratch: &str, ttl: bool, allow: bool) -> (u64, 
     std::fs::copy(image, scratch).unwrap();
     let out = run_child(
         &["probe".into(), format!("path={scratch}"), format!("ttl={}", ttl as u8), format!("allow={}", allow as u8)],
-        20,
+        180,
     )
     .unwrap_or_else(|| "SPAWN-FAILED".into());
     let _ = std::fs::remove_file(scratch);
@@ -451,7 +451,7 @@ pub fn run(opts: &Opts) -> i32 {
                         format!("ops={}", rng.range(10, 120)),
                         format!("ending={ending}"),
                     ],
-                    60,
+                    180,
                 );
                 if g.as_deref().map_or(true, |s| !s.starts_with("genimg-done")) {
                     out.emit3(&format!("note genimg-failed {:?}", g), "note", "FAIL workload-child-failed");
@@ -558,7 +558,7 @@ pub fn run_flushimg(opts: &Opts) -> i32 {
                         format!("ops={}", rng.range(5, 150)),
                         format!("ending={}", rng.pick(&[0u64, 2])),
                     ],
-                    60,
+                    180,
                 );
                 let line = std::fs::read_to_string(&dump).unwrap_or_else(|_| format!("no-dump {:?}", g));
                 if line.contains("OutOfSpace") {
@@ -615,7 +615,7 @@ pub fn run_golden(opts: &Opts) -> i32 {
         // 2./3. the working tree reads it to the same manifest, keeps the format when writing
         // golden files are opened with TTL off: their expiries are absolute instants that pass
         let ttl = false;
-        let r = run_child(&["reopen".into(), format!("path={work}"), format!("ttl={}", ttl as u8), format!("seed={seed}")], 60).unwrap_or_default();
+        let r = run_child(&["reopen".into(), format!("path={work}"), format!("ttl={}", ttl as u8), format!("seed={seed}")], 180).unwrap_or_default();
         let mut lines = r.lines();
         let first = lines.next().unwrap_or("").to_string();
         let second = lines.next().unwrap_or("").to_string();
